@@ -28,6 +28,8 @@ import (
 	"github.com/algorand/go-algorand/protocol"
 )
 
+const ndMaxStep = step(18)
+
 type ndProfile struct {
 	drop, dup, early, fast, crash, crashmid, hold, part, heal, byz, catchup int // per mille
 	maxCrashes                                                              int
@@ -94,7 +96,7 @@ func (r *ndRun) candidates() (fresh, dups []*ndMsg) {
 			continue
 		}
 		live = append(live, m)
-		if !r.sameSide(m.src, m.dst) {
+		if !r.sameSide(m.src, m.dst) || r.heldBusyLocked(m.dst) {
 			continue
 		}
 		if r.delivered[m.dst][m.hash] {
@@ -144,7 +146,9 @@ func (r *ndRun) generate() string {
 	case r.part != nil && hit(p.heal):
 		return "heal"
 	case len(fresh) > 0 && hit(p.early):
-		return fmt.Sprintf("t %d", hon[r.rng.Intn(len(hon))])
+		if n := r.pickTimer(hon); n >= 0 {
+			return fmt.Sprintf("t %d", n)
+		}
 	case hit(p.fast):
 		if n := r.pickFast(hon, p.stall); n >= 0 {
 			return fmt.Sprintf("f %d", n)
@@ -164,7 +168,16 @@ func (r *ndRun) generate() string {
 		if n := r.pickCatchup(hon); n >= 0 && r.rng.Intn(100) < 25 {
 			return fmt.Sprintf("cu %d", n)
 		}
-		return fmt.Sprintf("t %d", r.pickTimer(hon))
+		if n := r.pickTimer(hon); n >= 0 {
+			return fmt.Sprintf("t %d", n)
+		}
+		if r.part != nil {
+			return "heal"
+		}
+		if len(dups) > 0 {
+			return "d " + dups[r.rng.Intn(len(dups))].key
+		}
+		return "end"
 	}
 	if len(dups) > 0 && r.rng.Intn(1000) < p.dup {
 		return "d " + dups[r.rng.Intn(len(dups))].key
@@ -191,12 +204,26 @@ func (r *ndRun) generate() string {
 
 // pickTimer: when nothing can be delivered some clock must advance; mostly the node that is furthest behind (the one whose
 // deadline would expire first in real time), sometimes any node.
+//
+// Step deadlines double with every next step (2 s · 2^k): a node at step ≥ ndMaxStep would have waited for weeks, and
+// nextVoteRanges overflows int64 from step ≈ 36 (division by zero in player.handle at step 57) — real time never gets
+// there, so the harness does not fire deadlines of such nodes.  -1: no clock may advance.
 func (r *ndRun) pickTimer(hon []int) int {
+	r.mu.Lock()
+	defer r.mu.Unlock()
+	ok := []int{}
+	for _, id := range hon {
+		if r.nodes[id].step < ndMaxStep && !r.heldBusyLocked(id) {
+			ok = append(ok, id)
+		}
+	}
+	hon = ok
+	if len(hon) == 0 {
+		return -1
+	}
 	if r.rng.Intn(100) < 30 {
 		return hon[r.rng.Intn(len(hon))]
 	}
-	r.mu.Lock()
-	defer r.mu.Unlock()
 	best := []int{}
 	for _, id := range hon {
 		n := r.nodes[id]
@@ -215,14 +242,16 @@ func (r *ndRun) pickTimer(hon []int) int {
 }
 
 // pickFast: the first fast timeout of a period (deadline 0) fires at once in real time; later ones only after
-// FastRecoveryLambda, i.e. (timers in deadline order) when the node has long left the soft and cert steps.
+// FastRecoveryLambda — normally when the node has long left the soft and cert steps, but a node that was stalled or down
+// for that long handles it at whatever step it is in (demux.next selects at random among the ready timers).  With
+// VERIF_ND_TIMER_ORDER=1 only the first case is generated.
 func (r *ndRun) pickFast(hon []int, stall bool) int {
 	r.mu.Lock()
 	defer r.mu.Unlock()
 	ok := []int{}
 	for _, id := range hon {
 		n := r.nodes[id]
-		if stall || n.fastDl == 0 || n.step > cert {
+		if (stall || !ndTimerOrder || n.fastDl == 0 || n.step > cert) && !r.heldBusyLocked(id) {
 			ok = append(ok, id)
 		}
 	}
@@ -249,6 +278,23 @@ func (r *ndRun) pickCatchup(hon []int) int {
 		return -1
 	}
 	return behind[r.rng.Intn(len(behind))]
+}
+
+// heldBusyLocked: a node whose persistence is stalled (`hold`) can take two more attests (one in the persistence loop, one
+// in its queue); a third would block its demux loop inside Enqueue.  The generator leaves such a node alone until it is
+// crashed or released.
+func (r *ndRun) heldBusyLocked(id int) bool {
+	n := r.nodes[id]
+	if !n.honest || n.heldGate() == nil {
+		return false
+	}
+	k := 0
+	for _, ev := range n.attests {
+		if ev.gen == n.gen && !ev.persist {
+			k++
+		}
+	}
+	return k >= 2
 }
 
 // mayCrash: with VERIF_ND_NODOUBLE=1 a restarted node is not crashed again before an attest of its new incarnation has
@@ -307,6 +353,9 @@ func (r *ndRun) genByz(b int) string {
 		per--
 	}
 	k := r.rng.Intn(10)
+	if per > 0 && k < 5 {
+		k = 0 // fresh proposals in later periods compete with the re-proposed starting value
+	}
 	switch {
 	case k < 2 || len(vals) == 0:
 		r.stats.byzProps++
